@@ -5,8 +5,12 @@
 package main
 
 import (
+	"encoding/hex"
 	"fmt"
 	"os"
+
+	"github.com/elastos/Elastos.ELA/common/config"
+	"github.com/elastos/Elastos.ELA/crypto"
 
 	ctypes "github.com/elastos/Elastos.ELA/core/types/common"
 	"github.com/elastos/Elastos.ELA/core/types/interfaces"
@@ -19,7 +23,13 @@ import (
 var mode = ledgerh.Mode{Unspent: true, Pool: true, Prop: "C06", Cfg: "cfg_fixed"}
 
 func history(run *lib.Run, st *lib.Stats, sh *lib.Shards, id int, rng *lib.Rng, script func(h *ledgerh.H)) {
-	f, err := fixture.New(fixture.Options{})
+	// one origin arbiter = Keys[0]: the on-duty cross-chain arbiter is then a
+	// key of the harness, so SideChainPow transactions can be signed and pass
+	// the real context check
+	f, err := fixture.New(fixture.Options{Tune: func(p *config.Configuration) {
+		pk, _ := crypto.NewPubKey(fixture.KeySeed(0)).EncodePoint(true)
+		p.DPoSConfiguration.OriginArbiters = []string{hex.EncodeToString(pk)}
+	}})
 	if err != nil {
 		fmt.Fprintln(os.Stderr, "fixture:", err)
 		os.Exit(2)
@@ -34,7 +44,7 @@ func history(run *lib.Run, st *lib.Stats, sh *lib.Shards, id int, rng *lib.Rng, 
 func main() {
 	run := lib.ParseArgs()
 	rng := lib.NewRng(run.Seed)
-	st := lib.NewStats("C06", "histories on a real regnet BlockChain+ChainStore(ffldb)+TxPool: per step a valid block of 0-4 transfers over 4 keys (multi-input incl. several inputs from one parent tx, 1-5 outputs, zero-value outputs), a fork of depth 1-5 that does or does not take over (25% with a double-spending block inside), an invalid block (spent / unknown / out-of-range / immature / duplicate-input / two-spenders-in-block / same-block parent / duplicate tx / duplicate coinbase), or mempool traffic (valid, conflicting, invalid, mine the pool). nontrivial = history reaching height>=2 with >4 transactions; distinct by step log")
+	st := lib.NewStats("C06", "histories on a real regnet BlockChain+ChainStore(ffldb)+TxPool: per step a valid block of 0-4 transfers over 4 keys (multi-input incl. several inputs from one parent tx, 1-5 outputs, zero-value outputs), a fork of depth 1-5 that does or does not take over (25% with a double-spending block inside), an invalid block (spent / unknown / out-of-range / immature / duplicate-input / two-spenders-in-block / same-block parent / duplicate tx / duplicate coinbase), or mempool traffic (valid, conflicting, invalid, collisions between transfer / Record / SideChainPow transactions on one outpoint with equal or different Sequence, mine the pool); in-block double spends also with differing Sequence. nontrivial = history reaching height>=2 with >4 transactions; distinct by step log")
 	sh := &lib.Shards{Dir: run.Out, Imports: "From ELA Require Import model.Ledger corr.Ledger_run corr.C06_corr.", CaseType: "C06_corr.case",
 		Mismatch: "C06_corr.mismatches", Scope: "N", PerShard: 5}
 	id := 0
@@ -104,7 +114,13 @@ func main() {
 		h.Process(c5) // the disconnected join now double-spends
 	})
 
-	n := run.N(58, 3000)
+	// ---- corpus 3: in-block double spends whose two spenders differ in Sequence
+	history(run, st, sh, next(), rng.Fork(), func(h *ledgerh.H) { h.CorpusSeqBlocks() })
+	// ---- corpus 4: every pair of pool-capable transaction types (transfer,
+	// Record, SideChainPow) colliding on one outpoint in the mempool
+	history(run, st, sh, next(), rng.Fork(), func(h *ledgerh.H) { h.CorpusTypedPool() })
+
+	n := run.N(56, 3000)
 	for i := 0; i < n; i++ {
 		steps := 8 + rng.Intn(14)
 		if run.Thorough() {
